@@ -193,6 +193,7 @@ afterPublish:
 		st.called = map[string]string{}
 	}
 	st.called[name] = "true"
+	st.countCall(name)
 	if len(args) > 0 {
 		// ghost: the arguments of the most recent call to this callee (as a tuple), read by arg("name", k)
 		if st.lastRes == nil {
